@@ -10,6 +10,7 @@ from ..harness import Sub, Violation
 from ..spy import BatchRecorder, rows_to_indices
 
 QUICK_SCALE = 4  # quick budgets below are multiplied by this (kept at about half a minute on 8 processes)
+THOROUGH_SCALE = 12  # thorough budgets below are multiplied by this (about ten minutes on 16 processes)
 
 RULE = ("fitted inductive estimators (all gradient models but the nonparametric ones, and Kauri), new query arrays built "
         "from fresh draws and training rows; index sets = subsets, permutations, repeated rows, single rows. "
